@@ -35,7 +35,8 @@ type DagOpts struct {
 	Chain                bool   // force a single chain
 }
 
-var dagKeys = []string{"a", "b", "c", "d", "l"}
+// "aa" is a textual (not segment-wise) extension of "a"; long lists give indices like 1 and 10
+var dagKeys = []string{"a", "b", "c", "d", "l", "aa"}
 
 func mkCid(codec uint64, data []byte) cid.Cid {
 	h, _ := mh.Sum(data, mh.SHA2_256, -1)
@@ -101,6 +102,9 @@ func GenDAG(r *rand.Rand, o DagOpts) *DAG {
 	var genValue func(depth int) qp.Assemble
 	genList := func(depth int) qp.Assemble {
 		n := 1 + r.Intn(4)
+		if r.Intn(12) == 0 {
+			n = 11 + r.Intn(3)
+		}
 		return qp.List(int64(n), func(la datamodel.ListAssembler) {
 			var prev cid.Cid
 			for i := 0; i < n; i++ {
